@@ -35,11 +35,19 @@ class BlockResult:
         self.violations = []
         self.samples = []
         self.notes = []
+        self._per_sig = {}
+        self.hist_sig = {}
 
     def violation(self, sig, scenario, message):
-        if len(self.violations) < 50:
+        # keep a few examples per distinct signature so that one frequent category cannot hide
+        # the others
+        key = repr(sorted(sig.items()))
+        n = self._per_sig.get(key, 0)
+        self._per_sig[key] = n + 1
+        if n < 3 and len(self.violations) < 300:
             self.violations.append({"sig": sig, "scenario": scenario, "message": message})
         self.stats["violations_total"] += 1
+        self.hist_sig[key] = self.hist_sig.get(key, 0) + 1
 
 
 _WORK = None
@@ -119,9 +127,14 @@ def merge(total, r):
         else:
             total.stats[k] += v
     total.hist.update(r.hist)
-    room = 50 - len(total.violations)
-    if room > 0:
-        total.violations.extend(r.violations[:room])
+    for v in r.violations:
+        key = repr(sorted(v["sig"].items()))
+        n = total._per_sig.get(key, 0)
+        total._per_sig[key] = n + 1
+        if n < 3 and len(total.violations) < 300:
+            total.violations.append(v)
+    for k, c in r.hist_sig.items():
+        total.hist_sig[k] = total.hist_sig.get(k, 0) + c
     if len(total.samples) < 12:
         total.samples.extend(r.samples[: 12 - len(total.samples)])
     total.notes.extend(r.notes[:5])
